@@ -164,6 +164,13 @@ func propC01(j *Job) {
 	}
 	cases = append(cases, famZ8([]int{32769, 32770, 32771})...)
 	cases = append(cases, famZ9(modes, 1)...)
+	// an outage that swallows a chunk and several of its retransmissions: delivered all the same
+	// once the network is back (round-5 seed C01-r5A: a retransmission timer that gives up)
+	if j.Thorough() {
+		cases = append(cases, famZ2(modes, 1)...)
+	} else {
+		cases = append(cases, famZ2(modes[:2], 0)...)
+	}
 	runCases(j, cases, func(spec *xferSpec) func(m *Sim, x *Exec, r *xferResult) {
 		return deliveryFinal(spec, false, monOpts{})
 	})
